@@ -18,8 +18,48 @@ use qmc::util::bondcontainer::BondContainer;
 use std::collections::{BTreeMap, HashSet};
 use vh::*;
 
-type IG = DefaultQmcIsingGraph<SplitMix64>;
-type GQ = DefaultQmc<SplitMix64>;
+use qmc::sse::fast_op_alloc::{DefaultFastOpAllocator, FastOpAllocator, SwitchableFastOpAllocator};
+
+/// Allocator configuration of the managers a scenario runs on.
+trait Cfg: 'static {
+    type A: FastOpAllocator + serde::Serialize + serde::de::DeserializeOwned + Send + Sync + 'static;
+    /// appears in every label
+    const NAME: &'static str;
+    fn make() -> Self::A;
+}
+/// `DefaultFastOpAllocator` (what `FastOps`, `DefaultQmcIsingGraph`, `DefaultQmc` use)
+struct CfgDefault;
+/// the public wrapper `SwitchableFastOpAllocator::new(Some(DefaultFastOpAllocator::default()))`: forwards to a bounded pool
+struct CfgSwitchPool;
+/// `SwitchableFastOpAllocator::new(None)` (= its `Default`): no pool, fresh buffers from the OS
+struct CfgSwitchNone;
+impl Cfg for CfgDefault {
+    type A = DefaultFastOpAllocator;
+    const NAME: &'static str = "";
+    fn make() -> Self::A {
+        Default::default()
+    }
+}
+impl Cfg for CfgSwitchPool {
+    type A = SwitchableFastOpAllocator<DefaultFastOpAllocator>;
+    const NAME: &'static str = "alloc=switch(pool):";
+    fn make() -> Self::A {
+        SwitchableFastOpAllocator::new(Some(DefaultFastOpAllocator::default()))
+    }
+}
+impl Cfg for CfgSwitchNone {
+    type A = SwitchableFastOpAllocator<DefaultFastOpAllocator>;
+    const NAME: &'static str = "alloc=switch(none):";
+    fn make() -> Self::A {
+        SwitchableFastOpAllocator::new(None)
+    }
+}
+type Mgr<C> = FastOpsTemplate<FastOp, <C as Cfg>::A>;
+type IG<C> = QmcIsingGraph<SplitMix64, Mgr<C>>;
+type GQ<C> = Qmc<SplitMix64, Mgr<C>>;
+fn new_mgr<C: Cfg>(nvars: usize) -> Mgr<C> {
+    Mgr::<C>::new_from_nvars_and_nbonds_and_alloc(nvars, None, C::make())
+}
 
 const FIELDS: [&str; 9] = [
     "usize_alloc",
@@ -35,9 +75,15 @@ const FIELDS: [&str; 9] = [
 const LETTERS: [char; 9] = ['U', 'B', 'S', 'L', 'O', 'F', 'C', 'V', 'H'];
 
 /// free instances per allocator, from the serde snapshot of the manager (private state)
-fn snap(m: &FastOps) -> Vec<usize> {
+/// An EMPTY vector means: this manager has no pool (`SwitchableFastOpAllocator` without a wrapped allocator).
+fn snap<A: FastOpAllocator + serde::Serialize>(m: &FastOpsTemplate<FastOp, A>) -> Vec<usize> {
     let v = serde_json::to_value(m).expect("manager serialises");
     let a = &v["alloc"];
+    // the wrapper serialises as {"alloc": <wrapped allocator> | null}
+    let a = if a.get("usize_alloc").is_some() { a } else { &a["alloc"] };
+    if a.is_null() {
+        return vec![];
+    }
     FIELDS
         .iter()
         .map(|f| {
@@ -196,6 +242,34 @@ fn observe<S>(
     let before = snapf(s);
     let r = catch(|| call(s));
     let log = verif_log::take();
+    if before.is_empty() {
+        // no pool behind this manager: nothing can be exhausted or leak; the hook must stay silent and the
+        // call must not panic because of the allocator
+        out.count("nopool_manager_calls");
+        let mut problems = vec![];
+        if !log.is_empty() {
+            problems.push(format!("{} pool events although the manager has no pool", log.len()));
+        }
+        let after_ok = match &r {
+            Ok(()) => {
+                let after = snapf(s);
+                if !after.is_empty() {
+                    problems.push("a pool appeared".to_string());
+                }
+                true
+            }
+            Err(msg) => {
+                if msg.contains("Out of instances") {
+                    problems.push(format!("panic '{}'", msg));
+                } else {
+                    out.foreign_panics.push(format!("{}: {}", label, msg));
+                }
+                false
+            }
+        };
+        emit(false, &format!("snap - {}", label), "-", Some(if problems.is_empty() { Ok(()) } else { Err(format!("{}: {}", label, problems.join("; "))) }));
+        return after_ok;
+    }
     let mut info = analyse(&log, &before);
     let input_head = format!("pool {} {} {}", kind, list(&before), info.word);
     let nt = info.word != "-" && out.seen.insert(format!("{} {}", kind, info.word));
@@ -277,11 +351,11 @@ fn observe<S>(
 /// before the snapshot, which is the occupancy of a fresh pool (capacities at rest); the round
 /// trip itself performs no pool event. The model side: kind `restore` (grammar ε) must predict
 /// the restored occupancy from the occupancy before, and `caps` must equal it.
-fn observe_restore(out: &mut Out, label: &str, before: Vec<Vec<usize>>, roundtrip: impl FnOnce() -> Result<Vec<Vec<usize>>, String>) -> bool {
+fn observe_restore<C: Cfg>(out: &mut Out, label: &str, before: Vec<Vec<usize>>, roundtrip: impl FnOnce() -> Result<Vec<Vec<usize>>, String>) -> bool {
     let _ = verif_log::take();
     let r = catch(roundtrip);
     let log = verif_log::take();
-    let fresh = snap(&FastOps::new_from_nvars(1));
+    let fresh = snap(&new_mgr::<C>(1));
     out.count("kind_restore");
     let restored = match r {
         Ok(Ok(v)) => v,
@@ -310,6 +384,11 @@ fn observe_restore(out: &mut Out, label: &str, before: Vec<Vec<usize>>, roundtri
         }
         ok &= problems.is_empty();
         let oracle = if problems.is_empty() { Ok(()) } else { Err(format!("{}#{}: {}", label, i, problems.join("; "))) };
+        if b.is_empty() && after.is_empty() {
+            // manager without a pool: nothing to restore
+            emit(false, &format!("snap - {}#{}", label, i), "-", Some(oracle));
+            continue;
+        }
         emit(false, &format!("pool restore {} {} {}#{}", list(b), info.word, label, i), &format!("1 {} {}", list(&after), list(&after)), Some(oracle.clone()));
         // occupancy at rest of a restored pool = the capacities the proofs were checked against
         emit(false, &format!("caps {}#{}", label, i), &list(&after), Some(oracle));
@@ -376,18 +455,20 @@ fn show_f(x: f64) -> String {
     rat(x).replace('/', "d")
 }
 
-fn snap_ig(g: &IG) -> Vec<usize> {
+fn snap_ig<C: Cfg>(g: &IG<C>) -> Vec<usize> {
     snap(g.get_manager_ref())
 }
-fn snap_gq(q: &GQ) -> Vec<usize> {
+fn snap_gq<C: Cfg>(q: &GQ<C>) -> Vec<usize> {
     snap(q.get_manager_ref())
 }
 
-fn build_ising(lat: &Lattice, js: &[f64], gamma: f64, h: f64, cutoff: usize, seed: u64, hb: bool, rvb: bool) -> IG {
+fn build_ising<C: Cfg>(lat: &Lattice, js: &[f64], gamma: f64, h: f64, cutoff: usize, seed: u64, hb: bool, rvb: bool) -> IG<C> {
     let edges: Vec<((usize, usize), f64)> = lat.edges.iter().cloned().zip(js.iter().cloned()).collect();
     let mut gen = SplitMix64::new(seed ^ 0xABCD);
     let state: Vec<bool> = (0..lat.nvars).map(|_| gen.coin()).collect();
-    let mut g = IG::new_with_rng(edges, gamma, h, cutoff, SplitMix64::new(seed), Some(state));
+    let mut g = IG::<C>::new_with_rng_with_manager_hook(edges, gamma, h, cutoff, SplitMix64::new(seed), Some(state), |nv, nb| {
+        Mgr::<C>::new_from_nvars_and_nbonds_and_alloc(nv, Some(nb), C::make())
+    });
     if hb {
         g.set_enable_heatbath(true);
     }
@@ -397,9 +478,9 @@ fn build_ising(lat: &Lattice, js: &[f64], gamma: f64, h: f64, cutoff: usize, see
     g
 }
 
-fn ising_scenarios(out: &mut Out, gen: &mut SplitMix64, thorough: bool) {
+fn ising_scenarios<C: Cfg>(out: &mut Out, gen: &mut SplitMix64, thorough: bool, share: (usize, usize)) {
     let lats = lattices(thorough);
-    let n_scen = if thorough { 2400 } else { 300 };
+    let n_scen = (if thorough { 2400 } else { 300 }) * share.0 / share.1;
     let calls = if thorough { 60 } else { 40 };
     for sc in 0..n_scen {
         // the first scenarios walk through the lattices and the four (heat bath, rvb) combinations
@@ -432,7 +513,8 @@ fn ising_scenarios(out: &mut Out, gen: &mut SplitMix64, thorough: bool) {
         let cutoff = *gen.pick(&[1usize, 2, lat.nvars, 4 * lat.nvars]);
         let seed = gen.next();
         let tag = format!(
-            "ising:{}:J{}:G{}:h{}:b{}:hb{}:rvb{}:c{}:s{}",
+            "{}ising:{}:J{}:G{}:h{}:b{}:hb{}:rvb{}:c{}:s{}",
+            C::NAME,
             lat.name,
             ["eq", "var", "nondyadic"][jmode as usize],
             show_f(gamma),
@@ -443,7 +525,53 @@ fn ising_scenarios(out: &mut Out, gen: &mut SplitMix64, thorough: bool) {
             cutoff,
             seed
         );
-        let mut g = build_ising(&lat, &js, gamma, h, cutoff, seed, hb, rvb);
+        // COLD starts: the first call on a fresh sampler (no buffer of the pool has ever grown) is each update kind once
+        if sc % 2 == 0 {
+            for kind in 0..7u8 {
+                let mut f = build_ising::<C>(&lat, &js, gamma, h, cutoff, seed ^ (kind as u64 + 1), hb, rvb);
+                let lab = |s: &str| format!("{}:cold:{}", tag, s);
+                out.count("cold_start_calls");
+                match kind {
+                    0 => {
+                        observe(out, "rvb", &lab("single_rvb_sweep(Some(3))"), &mut f, snap_ig::<C>, |g| {
+                            g.single_rvb_sweep(Some(3));
+                        });
+                    }
+                    1 => {
+                        observe(out, "rvb", &lab("single_rvb_sweep(None)"), &mut f, snap_ig::<C>, |g| {
+                            g.single_rvb_sweep(None);
+                        });
+                    }
+                    2 => {
+                        observe(out, "cluster", &lab("single_cluster_step"), &mut f, snap_ig::<C>, |g| {
+                            g.single_cluster_step();
+                        });
+                    }
+                    3 => {
+                        observe(out, "istep", &lab("timestep"), &mut f, snap_ig::<C>, |g| {
+                            g.timestep(beta);
+                        });
+                    }
+                    4 => {
+                        observe(out, if hb { "heatbath" } else { "diag" }, &lab("single_diagonal_step"), &mut f, snap_ig::<C>, |g| g.single_diagonal_step(beta));
+                    }
+                    5 => {
+                        manager_level::<C>(out, &lab("mgr"), f.get_manager_ref(), &f.clone_state(), gen);
+                    }
+                    _ => {
+                        // an RVB sweep right after the first diagonal sweep, then a second one (buffers partly warm)
+                        let _ = observe(out, if hb { "heatbath" } else { "diag" }, &lab("single_diagonal_step"), &mut f, snap_ig::<C>, |g| g.single_diagonal_step(beta))
+                            && observe(out, "rvb", &lab("diag;single_rvb_sweep(Some(2))"), &mut f, snap_ig::<C>, |g| {
+                                g.single_rvb_sweep(Some(2));
+                            })
+                            && observe(out, "rvb", &lab("diag;rvb;single_rvb_sweep(Some(4))"), &mut f, snap_ig::<C>, |g| {
+                                g.single_rvb_sweep(Some(4));
+                            });
+                    }
+                }
+            }
+        }
+        let mut g = build_ising::<C>(&lat, &js, gamma, h, cutoff, seed, hb, rvb);
         out.count("scen_ising");
         out.count(if h != 0.0 { "scen_ising_h" } else { "scen_ising_h0" });
         out.count(if hb { "scen_ising_heatbath" } else { "scen_ising_metropolis" });
@@ -465,23 +593,23 @@ fn ising_scenarios(out: &mut Out, gen: &mut SplitMix64, thorough: bool) {
             let what = if ci < script.len() { script[ci] } else { gen.below(12) as u8 };
             let lab = |s: &str| format!("{}:call{}:{}", tag, ci, s);
             alive = match what {
-                0 => observe(out, step_kind, &lab("timestep"), &mut g, snap_ig, |g| {
+                0 => observe(out, step_kind, &lab("timestep"), &mut g, snap_ig::<C>, |g| {
                     g.timestep(beta);
                 }),
-                1 => observe(out, diag_kind, &lab("single_diagonal_step"), &mut g, snap_ig, |g| g.single_diagonal_step(beta)),
+                1 => observe(out, diag_kind, &lab("single_diagonal_step"), &mut g, snap_ig::<C>, |g| g.single_diagonal_step(beta)),
                 2 => {
                     let n0 = g.get_n() == 0;
                     if n0 {
                         out.count("cluster_on_empty_opstring");
                     }
-                    observe(out, "cluster", &lab("single_cluster_step"), &mut g, snap_ig, |g| {
+                    observe(out, "cluster", &lab("single_cluster_step"), &mut g, snap_ig::<C>, |g| {
                         g.single_cluster_step();
                     })
                 }
                 3 | 4 => {
                     let k = gen.below(6) as usize;
                     let mut res = (0, 0);
-                    let ok = observe(out, "rvb", &lab(&format!("single_rvb_sweep(Some({}))", k)), &mut g, snap_ig, |g| {
+                    let ok = observe(out, "rvb", &lab(&format!("single_rvb_sweep(Some({}))", k)), &mut g, snap_ig::<C>, |g| {
                         res = g.single_rvb_sweep(Some(k));
                     });
                     out.add("rvb_accepted", res.0 as u64);
@@ -493,7 +621,7 @@ fn ising_scenarios(out: &mut Out, gen: &mut SplitMix64, thorough: bool) {
                 }
                 5 => {
                     let mut res = (0, 0);
-                    let ok = observe(out, "rvb", &lab("single_rvb_sweep(None)"), &mut g, snap_ig, |g| {
+                    let ok = observe(out, "rvb", &lab("single_rvb_sweep(None)"), &mut g, snap_ig::<C>, |g| {
                         res = g.single_rvb_sweep(None);
                     });
                     out.add("rvb_accepted", res.0 as u64);
@@ -502,22 +630,22 @@ fn ising_scenarios(out: &mut Out, gen: &mut SplitMix64, thorough: bool) {
                 }
                 6 => {
                     let t = 1 + gen.below(4) as usize;
-                    observe(out, "isteps", &lab(&format!("timesteps({})", t)), &mut g, snap_ig, |g| {
+                    observe(out, "isteps", &lab(&format!("timesteps({})", t)), &mut g, snap_ig::<C>, |g| {
                         g.timesteps(t, beta);
                     })
                 }
                 7 => {
                     // manager-level calls on a clone of the current manager
-                    manager_level(out, &lab("mgr"), g.get_manager_ref(), &g.clone_state(), gen);
+                    manager_level::<C>(out, &lab("mgr"), g.get_manager_ref(), &g.clone_state(), gen);
                     true
                 }
                 9 => {
                     // the run continues on the RESTORED sampler, so every later call exercises its pool
-                    let before = vec![snap_ig(&g)];
-                    let mut restored: Option<IG> = None;
-                    let ok = observe_restore(out, &lab("serde_json(QmcIsingGraph)"), before, || {
-                        let g2: IG = json_roundtrip(&g)?;
-                        let v = vec![snap_ig(&g2)];
+                    let before = vec![snap_ig::<C>(&g)];
+                    let mut restored: Option<IG<C>> = None;
+                    let ok = observe_restore::<C>(out, &lab("serde_json(QmcIsingGraph)"), before, || {
+                        let g2: IG<C> = json_roundtrip(&g)?;
+                        let v = vec![snap_ig::<C>(&g2)];
                         restored = Some(g2);
                         Ok(v)
                     });
@@ -529,27 +657,27 @@ fn ising_scenarios(out: &mut Out, gen: &mut SplitMix64, thorough: bool) {
                 }
                 11 => {
                     // degenerate parameters of the sampler-level entry points
-                    observe(out, diag_kind, &lab("single_diagonal_step(beta=0)"), &mut g, snap_ig, |g| g.single_diagonal_step(0.0))
-                        && observe(out, "isteps", &lab("timesteps(0)"), &mut g, snap_ig, |g| {
+                    observe(out, diag_kind, &lab("single_diagonal_step(beta=0)"), &mut g, snap_ig::<C>, |g| g.single_diagonal_step(0.0))
+                        && observe(out, "isteps", &lab("timesteps(0)"), &mut g, snap_ig::<C>, |g| {
                             g.timesteps(0, beta);
                         })
-                        && observe(out, step_kind, &lab("timestep(beta=0)"), &mut g, snap_ig, |g| {
+                        && observe(out, step_kind, &lab("timestep(beta=0)"), &mut g, snap_ig::<C>, |g| {
                             g.timestep(0.0);
                         })
-                        && observe(out, "rvb", &lab("single_rvb_sweep(Some(0))"), &mut g, snap_ig, |g| {
+                        && observe(out, "rvb", &lab("single_rvb_sweep(Some(0))"), &mut g, snap_ig::<C>, |g| {
                             g.single_rvb_sweep(Some(0));
                         })
                 }
                 10 => {
-                    use qmc::sse::qmc_ising::serialization::DefaultSerializeQmcGraph;
-                    let before = vec![snap_ig(&g)];
+                    use qmc::sse::qmc_ising::serialization::SerializeQmcGraph;
+                    let before = vec![snap_ig::<C>(&g)];
                     let seed2 = gen.next();
-                    let mut slot: Option<IG> = None;
-                    let sg: DefaultSerializeQmcGraph = g.into();
-                    let _ = observe_restore(out, &lab("serde_json(SerializeQmcGraph).into_qmc"), before, || {
-                        let sg2: DefaultSerializeQmcGraph = json_roundtrip(&sg)?;
-                        let g2: IG = sg2.into_qmc(SplitMix64::new(seed2));
-                        let v = vec![snap_ig(&g2)];
+                    let mut slot: Option<IG<C>> = None;
+                    let sg: SerializeQmcGraph<Mgr<C>> = g.into();
+                    let _ = observe_restore::<C>(out, &lab("serde_json(SerializeQmcGraph).into_qmc"), before, || {
+                        let sg2: SerializeQmcGraph<Mgr<C>> = json_roundtrip(&sg)?;
+                        let g2: IG<C> = sg2.into_qmc(SplitMix64::new(seed2));
+                        let v = vec![snap_ig::<C>(&g2)];
                         slot = Some(g2);
                         Ok(v)
                     });
@@ -559,7 +687,7 @@ fn ising_scenarios(out: &mut Out, gen: &mut SplitMix64, thorough: bool) {
                     };
                     true
                 }
-                _ => observe(out, "nopool", &lab("set_cutoff/getters"), &mut g, snap_ig, |g| {
+                _ => observe(out, "nopool", &lab("set_cutoff/getters"), &mut g, snap_ig::<C>, |g| {
                     let c = g.get_cutoff();
                     g.set_cutoff(c + 1);
                     let _ = g.get_n();
@@ -574,17 +702,79 @@ fn ising_scenarios(out: &mut Out, gen: &mut SplitMix64, thorough: bool) {
     }
 }
 
+/// A cursor carried from one window to the next through `get_empty_args(SubvarAccess::Args(args))`
+/// ("does not clear"): get_empty_args(Varlist | All) → fill → mutate_p over the window → Args arm → fill →
+/// … (2–4 windows) → return_args | mutate_subsection | mutate_subsection_ops.  With `steps = Some(..)` the
+/// pool log and the occupancy are looked at after EVERY call in between: none of them may touch the pool.
+fn args_windows<C: Cfg>(m: &mut Mgr<C>, vars: Option<&[usize]>, bounds: &[usize], hint: bool, finish: u8, mut steps: Option<&mut Vec<String>>) {
+    let allvars: Vec<usize> = (0..m.get_nvars()).collect();
+    let vs: &[usize] = vars.unwrap_or(&allvars);
+    let mut a = match vars {
+        Some(v) => m.get_empty_args(SubvarAccess::Varlist(v)),
+        None => m.get_empty_args(SubvarAccess::All),
+    };
+    let _ = if steps.is_some() { verif_log::take() } else { vec![] };
+    let held = snap(m);
+    let mut check = |m: &Mgr<C>, what: &str| {
+        if let Some(pr) = steps.as_mut() {
+            let l = verif_log::take();
+            if !l.is_empty() && pr.len() < 4 {
+                pr.push(format!("{} performed {} pool events (first: {:?})", what, l.len(), l[0]));
+            }
+            let now = snap(m);
+            if now != held && pr.len() < 4 {
+                pr.push(format!("occupancy changed across {}: {} -> {}", what, list(&held), list(&now)));
+            }
+        }
+    };
+    let k = bounds.len() - 1;
+    let mut consumed = false;
+    for w in 0..k {
+        if w > 0 {
+            a = m.get_empty_args(SubvarAccess::Args(a));
+            check(m, "get_empty_args(SubvarAccess::Args)");
+        }
+        if hint {
+            m.fill_args_at_p_with_hint(bounds[w], &mut a, vs, vs.iter().map(|_| None));
+            check(m, "fill_args_at_p_with_hint");
+        } else {
+            a = m.fill_args_at_p(bounds[w], a);
+            check(m, "fill_args_at_p");
+        }
+        if w + 1 == k && finish != 0 {
+            if finish == 1 {
+                m.mutate_subsection(bounds[w], bounds[w + 1], (), |_, _, t| (None, t), Some(a));
+            } else {
+                m.mutate_subsection_ops(bounds[w], bounds[w + 1], (), |_, _, _, t| (None, t), Some(a));
+            }
+            consumed = true;
+            break;
+        }
+        for p in bounds[w]..bounds[w + 1] {
+            let (_, a2) = m.mutate_p(|_, _, t| (None, t), p, (), a);
+            a = a2;
+        }
+        check(m, "mutate_p over the window");
+        if w + 1 == k {
+            m.return_args(a);
+            consumed = true;
+            break;
+        }
+    }
+    debug_assert!(consumed);
+}
+
 /// Public `FastOps` level entry points on a clone of a manager taken from a running sampler.
-fn manager_level(out: &mut Out, tag: &str, m0: &FastOps, state: &[bool], gen: &mut SplitMix64) {
+fn manager_level<C: Cfg>(out: &mut Out, tag: &str, m0: &Mgr<C>, state: &[bool], gen: &mut SplitMix64) {
     let cutoff = m0.get_cutoff();
     let nvars = m0.get_nvars();
     let mut m = m0.clone();
     let lab = |s: &str| format!("{}:{}", tag, s);
     if gen.coin() {
         let before = vec![snap(&m)];
-        let mut slot: Option<FastOps> = None;
-        let _ = observe_restore(out, &lab("serde_json(FastOps)"), before, || {
-            let m2: FastOps = json_roundtrip(&m)?;
+        let mut slot: Option<Mgr<C>> = None;
+        let _ = observe_restore::<C>(out, &lab("serde_json(FastOps)"), before, || {
+            let m2: Mgr<C> = json_roundtrip(&m)?;
             let v = vec![snap(&m2)];
             slot = Some(m2);
             Ok(v)
@@ -655,9 +845,9 @@ fn manager_level(out: &mut Out, tag: &str, m0: &FastOps, state: &[bool], gen: &m
     }
     {
         // `new_from_ops` creates the manager: "before" is a fresh manager's occupancy
-        let mut slot: Option<FastOps> = Some(FastOps::new_from_nvars(nvars));
+        let mut slot: Option<Mgr<C>> = Some(Mgr::<C>::new_from_nvars(nvars));
         observe(out, "install", &lab(&format!("new_from_ops(n={})", ops.len())), &mut slot, |s| snap(s.as_ref().unwrap()), |s| {
-            *s = Some(FastOps::new_from_ops(nvars, ops.clone()));
+            *s = Some(Mgr::<C>::new_from_ops(nvars, ops.clone()));
         });
     }
     // degenerate parameters: empty ranges, cursor borrowed and handed straight back, fold without change
@@ -681,6 +871,58 @@ fn manager_level(out: &mut Out, tag: &str, m0: &FastOps, state: &[bool], gen: &m
     });
     if !ok {
         return;
+    }
+    // cursor re-used across consecutive windows through the `SubvarAccess::Args` arm
+    for origin_all in [false, true] {
+        let k = 2 + gen.below(3) as usize;
+        let mut bounds: Vec<usize> = (0..=k).map(|_| gen.below(cutoff as u64 + 1) as usize).collect();
+        bounds.sort_unstable();
+        if bounds[0] >= cutoff {
+            bounds[0] = cutoff - 1;
+        }
+        let hint = gen.chance(1, 3);
+        let finish = gen.below(3) as u8;
+        let vo: Option<&[usize]> = if origin_all { None } else { Some(&vars) };
+        let kind = match (origin_all, finish) {
+            (true, _) => "sweepallargs",
+            (false, 2) => "sweepopsvar",
+            (false, _) => "sweeppsvar",
+        };
+        let l = lab(&format!(
+            "args-reuse:{}:windows{:?}:{}:finish={}",
+            if origin_all { "All".to_string() } else { format!("Varlist{:?}", vars) },
+            bounds,
+            if hint { "hint" } else { "fill" },
+            ["return_args", "mutate_subsection", "mutate_subsection_ops"][finish as usize]
+        ))
+        .replace(' ', "");
+        out.count("args_reuse_sequences");
+        if !observe(out, kind, &l, &mut m, |m| snap(m), |m| args_windows::<C>(m, vo, &bounds, hint, finish, None)) {
+            return;
+        }
+        // the same sequence again, looking at the pool after every call in between
+        let initial = snap(&m);
+        let mut problems: Vec<String> = vec![];
+        let _ = verif_log::take();
+        let r = catch(|| args_windows::<C>(&mut m, vo, &bounds, hint, finish, Some(&mut problems)));
+        let _ = verif_log::take();
+        match r {
+            Ok(()) => {
+                let fin = snap(&m);
+                if fin != initial {
+                    problems.push(format!("occupancy after the final return {} differs from the initial {}", list(&fin), list(&initial)));
+                }
+                emit(false, &format!("snap {} {}:stepwise", list(&initial), l), &list(&fin), Some(if problems.is_empty() { Ok(()) } else { Err(format!("{}: {}", l, problems.join("; "))) }));
+            }
+            Err(msg) => {
+                if msg.contains("Out of instances") || !problems.is_empty() {
+                    emit(false, &format!("snap {} {}:stepwise", list(&initial), l), "P", Some(Err(format!("{}: panic '{}'; {}", l, msg, problems.join("; ")))));
+                } else {
+                    out.foreign_panics.push(format!("{}: {}", l, msg));
+                }
+                return;
+            }
+        }
     }
     // every public cluster entry point, with flip probability 0, tiny, 1/2 and 1 (a probability > 1 is refused
     // by rand's gen_bool with a panic, i.e. not accepted), on the clone — and on an empty manager
@@ -707,7 +949,7 @@ fn manager_level(out: &mut Out, tag: &str, m0: &FastOps, state: &[bool], gen: &m
             return;
         }
     }
-    let mut empty = FastOps::new_from_nvars(nvars);
+    let mut empty = new_mgr::<C>(nvars);
     let mut st0 = state.to_vec();
     observe(out, "cluster", &lab("flip_each_cluster_ising_symmetry(prob=0)[empty manager]"), &mut empty, |m| snap(m), |m| {
         m.flip_each_cluster_ising_symmetry_rng(0.0, &mut rng, &mut st0);
@@ -792,10 +1034,10 @@ fn generic_models(thorough: bool) -> Vec<GModel> {
     v
 }
 
-fn build_generic(gm: &GModel, seed: u64, loops: bool, hb: bool) -> Option<GQ> {
+fn build_generic<C: Cfg>(gm: &GModel, seed: u64, loops: bool, hb: bool) -> Option<GQ<C>> {
     let mut gen = SplitMix64::new(seed ^ 0x5151);
     let state: Vec<bool> = (0..gm.nvars).map(|_| gen.coin()).collect();
-    let mut q = GQ::new_with_state(gm.nvars, SplitMix64::new(seed), state, loops);
+    let mut q = GQ::<C>::new_with_state_with_manager_hook(gm.nvars, SplitMix64::new(seed), state, loops, |nv| new_mgr::<C>(nv));
     for (mat, vars, diag) in &gm.terms {
         let r = if *diag {
             q.make_diagonal_interaction_and_offset(mat.clone(), vars.clone())
@@ -814,9 +1056,9 @@ fn build_generic(gm: &GModel, seed: u64, loops: bool, hb: bool) -> Option<GQ> {
     Some(q)
 }
 
-fn generic_scenarios(out: &mut Out, gen: &mut SplitMix64, thorough: bool) {
+fn generic_scenarios<C: Cfg>(out: &mut Out, gen: &mut SplitMix64, thorough: bool, share: (usize, usize)) {
     let models = generic_models(thorough);
-    let n_scen = if thorough { 1800 } else { 220 };
+    let n_scen = (if thorough { 1800 } else { 220 }) * share.0 / share.1;
     let calls = if thorough { 60 } else { 40 };
     for sc in 0..n_scen {
         let gm = models[sc % models.len()].clone();
@@ -824,8 +1066,8 @@ fn generic_scenarios(out: &mut Out, gen: &mut SplitMix64, thorough: bool) {
         let hb = gen.chance(1, 3);
         let beta = *gen.pick(&[1.0 / 64.0, 0.25, 1.0, 2.0, 4.0]);
         let seed = gen.next();
-        let tag = format!("generic:{}:b{}:loops{}:hb{}:s{}", gm.name, show_f(beta), loops as u8, hb as u8, seed);
-        let mut q = match build_generic(&gm, seed, loops, hb) {
+        let tag = format!("{}generic:{}:b{}:loops{}:hb{}:s{}", C::NAME, gm.name, show_f(beta), loops as u8, hb as u8, seed);
+        let mut q = match build_generic::<C>(&gm, seed, loops, hb) {
             Some(q) => q,
             None => {
                 out.count("generic_model_rejected");
@@ -845,20 +1087,20 @@ fn generic_scenarios(out: &mut Out, gen: &mut SplitMix64, thorough: bool) {
             let what = if ci < script.len() { script[ci] } else { gen.below(10) as u8 };
             let lab = |s: &str| format!("{}:call{}:{}", tag, ci, s);
             alive = match what {
-                0 => observe(out, "gstep", &lab("timestep"), &mut q, snap_gq, |q| {
+                0 => observe(out, "gstep", &lab("timestep"), &mut q, snap_gq::<C>, |q| {
                     q.timestep(beta);
                 }),
-                1 => observe(out, diag_kind, &lab("diagonal_update"), &mut q, snap_gq, |q| q.diagonal_update(beta)),
+                1 => observe(out, diag_kind, &lab("diagonal_update"), &mut q, snap_gq::<C>, |q| q.diagonal_update(beta)),
                 2 => {
                     if q.get_n() == 0 {
                         out.count("loop_on_empty_opstring");
                     }
-                    observe(out, "loop", &lab("loop_update"), &mut q, snap_gq, |q| q.loop_update())
+                    observe(out, "loop", &lab("loop_update"), &mut q, snap_gq::<C>, |q| q.loop_update())
                 }
                 3 => {
                     let n0 = q.get_n() == 0;
                     let mut ran = false;
-                    let ok = observe(out, "cluster", &lab("cluster_update"), &mut q, snap_gq, |q| {
+                    let ok = observe(out, "cluster", &lab("cluster_update"), &mut q, snap_gq::<C>, |q| {
                         ran = q.cluster_update().is_ok();
                     });
                     if ran && n0 {
@@ -874,13 +1116,13 @@ fn generic_scenarios(out: &mut Out, gen: &mut SplitMix64, thorough: bool) {
                 }
                 4 => {
                     let t = 1 + gen.below(4) as usize;
-                    observe(out, "gsteps", &lab(&format!("timesteps({})", t)), &mut q, snap_gq, |q| {
+                    observe(out, "gsteps", &lab(&format!("timesteps({})", t)), &mut q, snap_gq::<C>, |q| {
                         q.timesteps(t, beta);
                     })
                 }
                 5 => {
                     let m0 = q.get_manager_ref().clone();
-                    manager_level(out, &lab("mgr"), &m0, &q.clone_state(), gen);
+                    manager_level::<C>(out, &lab("mgr"), &m0, &q.clone_state(), gen);
                     true
                 }
                 6 => {
@@ -900,20 +1142,20 @@ fn generic_scenarios(out: &mut Out, gen: &mut SplitMix64, thorough: bool) {
                     }
                 }
                 9 => {
-                    observe(out, diag_kind, &lab("diagonal_update(beta=0)"), &mut q, snap_gq, |q| q.diagonal_update(0.0))
-                        && observe(out, "gsteps", &lab("timesteps(0)"), &mut q, snap_gq, |q| {
+                    observe(out, diag_kind, &lab("diagonal_update(beta=0)"), &mut q, snap_gq::<C>, |q| q.diagonal_update(0.0))
+                        && observe(out, "gsteps", &lab("timesteps(0)"), &mut q, snap_gq::<C>, |q| {
                             q.timesteps(0, beta);
                         })
-                        && observe(out, "nopool", &lab("imaginary_time_fold"), &mut q, snap_gq, |q| {
+                        && observe(out, "nopool", &lab("imaginary_time_fold"), &mut q, snap_gq::<C>, |q| {
                             let _ = q.imaginary_time_fold(|a: usize, s| a + s.len(), 0);
                         })
                 }
                 8 => {
-                    let before = vec![snap_gq(&q)];
-                    let mut slot: Option<GQ> = None;
-                    let _ = observe_restore(out, &lab("serde_json(Qmc)"), before, || {
-                        let q2: GQ = json_roundtrip(&q)?;
-                        let v = vec![snap_gq(&q2)];
+                    let before = vec![snap_gq::<C>(&q)];
+                    let mut slot: Option<GQ<C>> = None;
+                    let _ = observe_restore::<C>(out, &lab("serde_json(Qmc)"), before, || {
+                        let q2: GQ<C> = json_roundtrip(&q)?;
+                        let v = vec![snap_gq::<C>(&q2)];
                         slot = Some(q2);
                         Ok(v)
                     });
@@ -922,7 +1164,7 @@ fn generic_scenarios(out: &mut Out, gen: &mut SplitMix64, thorough: bool) {
                     }
                     true
                 }
-                _ => observe(out, "nopool", &lab("flip_free_bits/set_cutoff"), &mut q, snap_gq, |q| {
+                _ => observe(out, "nopool", &lab("flip_free_bits/set_cutoff"), &mut q, snap_gq::<C>, |q| {
                     q.flip_free_bits();
                     let c = q.get_cutoff();
                     q.increase_cutoff_to(c + 1);
@@ -941,6 +1183,7 @@ fn generic_scenarios(out: &mut Out, gen: &mut SplitMix64, thorough: bool) {
 /// `flips_weights`, `constant_ps`, …) are handed back with a capacity far beyond anything the small
 /// scenarios reach (a `reset` that treats big buffers differently is only visible here).
 fn large_scenarios(out: &mut Out, gen: &mut SplitMix64, thorough: bool) {
+    type C = CfgDefault;
     // (sites, beta, h, heat bath, rvb, steps)
     let mut runs: Vec<(usize, f64, f64, bool, bool, usize)> = vec![(96, 48.0, 0.0, false, true, 5)];
     if thorough {
@@ -955,12 +1198,12 @@ fn large_scenarios(out: &mut Out, gen: &mut SplitMix64, thorough: bool) {
         // start with a roomy cutoff so that the string is long from the first sweep on
         let cutoff = (3.0 * beta * n as f64) as usize;
         let tag = format!("large:ising:ring{}:G1d1:h{}:b{}:hb{}:rvb{}:c{}:s{}", n, show_f(h), show_f(beta), hb as u8, rvb as u8, cutoff, seed);
-        let mut g = build_ising(&lat, &js, 1.0, h, cutoff, seed, hb, rvb);
+        let mut g = build_ising::<C>(&lat, &js, 1.0, h, cutoff, seed, hb, rvb);
         out.count("scen_large_ising");
         let mut alive = true;
         for ci in 0..steps {
             let lab = |s: &str| format!("{}:call{}:{}", tag, ci, s);
-            if !observe(out, "istep", &lab("timestep"), &mut g, snap_ig, |g| {
+            if !observe(out, "istep", &lab("timestep"), &mut g, snap_ig::<C>, |g| {
                 g.timestep(beta);
             }) {
                 alive = false;
@@ -977,13 +1220,13 @@ fn large_scenarios(out: &mut Out, gen: &mut SplitMix64, thorough: bool) {
             out.count("large_run_too_small");
         }
         let lab = |s: &str| format!("{}:{}", tag, s);
-        let _ = observe(out, "rvb", &lab("single_rvb_sweep(Some(4))"), &mut g, snap_ig, |g| {
+        let _ = observe(out, "rvb", &lab("single_rvb_sweep(Some(4))"), &mut g, snap_ig::<C>, |g| {
             g.single_rvb_sweep(Some(4));
-        }) && observe(out, "cluster", &lab("single_cluster_step"), &mut g, snap_ig, |g| {
+        }) && observe(out, "cluster", &lab("single_cluster_step"), &mut g, snap_ig::<C>, |g| {
             g.single_cluster_step();
         });
         let m0 = g.get_manager_ref().clone();
-        manager_level(out, &lab("mgr"), &m0, &g.clone_state(), gen);
+        manager_level::<C>(out, &lab("mgr"), &m0, &g.clone_state(), gen);
     }
     // generic sampler with loop updates (and cluster updates) on a long string
     let mut gruns: Vec<(&str, usize, f64, usize)> = vec![];
@@ -1011,7 +1254,7 @@ fn large_scenarios(out: &mut Out, gen: &mut SplitMix64, thorough: bool) {
         let gm = GModel { name: format!("{}{}", kind, n), nvars: n, terms: t };
         let seed = gen.next();
         let tag = format!("large:generic:{}:b{}:loops1:s{}", gm.name, show_f(beta), seed);
-        let mut q = match build_generic(&gm, seed, true, false) {
+        let mut q = match build_generic::<C>(&gm, seed, true, false) {
             Some(q) => q,
             None => continue,
         };
@@ -1020,7 +1263,7 @@ fn large_scenarios(out: &mut Out, gen: &mut SplitMix64, thorough: bool) {
         let mut alive = true;
         for ci in 0..steps {
             let lab = |s: &str| format!("{}:call{}:{}", tag, ci, s);
-            if !observe(out, "gstep", &lab("timestep"), &mut q, snap_gq, |q| {
+            if !observe(out, "gstep", &lab("timestep"), &mut q, snap_gq::<C>, |q| {
                 q.timestep(beta);
             }) {
                 alive = false;
@@ -1033,14 +1276,14 @@ fn large_scenarios(out: &mut Out, gen: &mut SplitMix64, thorough: bool) {
             continue;
         }
         let lab = |s: &str| format!("{}:{}", tag, s);
-        let _ = observe(out, "loop", &lab("loop_update"), &mut q, snap_gq, |q| q.loop_update());
+        let _ = observe(out, "loop", &lab("loop_update"), &mut q, snap_gq::<C>, |q| q.loop_update());
     }
 }
 
-fn tempering_scenarios(out: &mut Out, gen: &mut SplitMix64, thorough: bool) {
-    type TC = TemperingContainer<SplitMix64, IG>;
+fn tempering_scenarios<C: Cfg>(out: &mut Out, gen: &mut SplitMix64, thorough: bool, share: (usize, usize)) {
+    type TC<K> = TemperingContainer<SplitMix64, IG<K>>;
     let lats = lattices(false);
-    let n_scen = if thorough { 160 } else { 24 };
+    let n_scen = (if thorough { 160 } else { 24 }) * share.0 / share.1;
     for sc in 0..n_scen {
         let lat = lats[(sc * 3 + 1) % lats.len()].clone();
         let h = if gen.chance(1, 3) { 0.5 } else { 0.0 };
@@ -1048,19 +1291,19 @@ fn tempering_scenarios(out: &mut Out, gen: &mut SplitMix64, thorough: bool) {
         let nrep = 2 + gen.below(4) as usize;
         let seed = gen.next();
         let rvb = gen.coin();
-        let mut tc = TC::new(SplitMix64::new(seed));
+        let mut tc = TC::<C>::new(SplitMix64::new(seed));
         let mut ok = true;
         for r in 0..nrep {
             let gamma = 0.5 + 0.25 * r as f64;
-            let g = build_ising(&lat, &js, gamma, h, lat.nvars, seed.wrapping_add(r as u64), false, rvb);
+            let g = build_ising::<C>(&lat, &js, gamma, h, lat.nvars, seed.wrapping_add(r as u64), false, rvb);
             ok &= tc.add_qmc_stepper(g, 0.5 + 0.5 * r as f64).is_ok();
         }
         if !ok {
             continue;
         }
         out.count("scen_tempering");
-        let tag = format!("tempering:{}:h{}:rep{}:rvb{}:s{}", lat.name, show_f(h), nrep, rvb as u8, seed);
-        let snap_all = |tc: &TC| -> Vec<Vec<usize>> { tc.graph_ref().iter().map(|(g, _)| snap_ig(g)).collect() };
+        let tag = format!("{}tempering:{}:h{}:rep{}:rvb{}:s{}", C::NAME, lat.name, show_f(h), nrep, rvb as u8, seed);
+        let snap_all = |tc: &TC<C>| -> Vec<Vec<usize>> { tc.graph_ref().iter().map(|(g, _)| snap_ig::<C>(g)).collect() };
         let mut usable = true;
         for ci in 0..(if thorough { 30 } else { 12 }) {
             let lab = |s: &str| format!("{}:call{}:{}", tag, ci, s);
@@ -1069,9 +1312,9 @@ fn tempering_scenarios(out: &mut Out, gen: &mut SplitMix64, thorough: bool) {
             if ci == 0 || ci == 5 || gen.chance(1, 6) {
                 let before = snap_all(&tc);
                 if ci % 2 == 0 {
-                    let mut slot: Option<TC> = None;
-                    let _ = observe_restore(out, &lab("serde_json(TemperingContainer)"), before, || {
-                        let tc2: TC = json_roundtrip(&tc)?;
+                    let mut slot: Option<TC<C>> = None;
+                    let _ = observe_restore::<C>(out, &lab("serde_json(TemperingContainer)"), before, || {
+                        let tc2: TC<C> = json_roundtrip(&tc)?;
                         let v = snap_all(&tc2);
                         slot = Some(tc2);
                         Ok(v)
@@ -1080,13 +1323,13 @@ fn tempering_scenarios(out: &mut Out, gen: &mut SplitMix64, thorough: bool) {
                         tc = tc2;
                     }
                 } else {
-                    use qmc::sse::parallel_tempering::serialization::DefaultSerializeTemperingContainer;
+                    use qmc::sse::parallel_tempering::serialization::SerializeTemperingContainer;
                     let seeds: Vec<u64> = (0..nrep + 1).map(|_| gen.next()).collect();
-                    let mut slot: Option<TC> = None;
-                    let stc: DefaultSerializeTemperingContainer = tc.into();
-                    let _ = observe_restore(out, &lab("serde_json(SerializeTemperingContainer).into_tempering_container"), before, || {
-                        let stc2: DefaultSerializeTemperingContainer = json_roundtrip(&stc)?;
-                        let tc2: TC = stc2.into_tempering_container_from_vec(SplitMix64::new(seeds[0]), seeds[1..].iter().map(|s| SplitMix64::new(*s)).collect());
+                    let mut slot: Option<TC<C>> = None;
+                    let stc: SerializeTemperingContainer<Mgr<C>> = tc.into();
+                    let _ = observe_restore::<C>(out, &lab("serde_json(SerializeTemperingContainer).into_tempering_container"), before, || {
+                        let stc2: SerializeTemperingContainer<Mgr<C>> = json_roundtrip(&stc)?;
+                        let tc2: TC<C> = stc2.into_tempering_container_from_vec(SplitMix64::new(seeds[0]), seeds[1..].iter().map(|s| SplitMix64::new(*s)).collect());
                         let v = snap_all(&tc2);
                         slot = Some(tc2);
                         Ok(v)
@@ -1102,9 +1345,9 @@ fn tempering_scenarios(out: &mut Out, gen: &mut SplitMix64, thorough: bool) {
             let swaps_before = tc.get_total_swaps();
             let alive = if ci % 2 == 0 {
                 let t = 1 + gen.below(3) as usize;
-                observe(out, "isteps", &lab(&format!("container.timesteps({})", t)), &mut tc, |tc| snap_ig(&tc.graph_ref()[0].0), |tc| tc.timesteps(t))
+                observe(out, "isteps", &lab(&format!("container.timesteps({})", t)), &mut tc, |tc| snap_ig::<C>(&tc.graph_ref()[0].0), |tc| tc.timesteps(t))
             } else {
-                observe(out, "nopool", &lab("tempering_step"), &mut tc, |tc| snap_ig(&tc.graph_ref()[0].0), |tc| tc.tempering_step())
+                observe(out, "nopool", &lab("tempering_step"), &mut tc, |tc| snap_ig::<C>(&tc.graph_ref()[0].0), |tc| tc.tempering_step())
             };
             if !alive {
                 usable = false; // a replica lost its manager in a panic
@@ -1124,7 +1367,7 @@ fn tempering_scenarios(out: &mut Out, gen: &mut SplitMix64, thorough: bool) {
                 let gs = tc.graph_mut();
                 let (a, b) = gs.split_at_mut(1);
                 let mut pair = (&mut a[0].0, &mut b[0].0);
-                observe(out, "nopool", &lab("swap_manager_and_state"), &mut pair, |p| snap_ig(p.0), |p| {
+                observe(out, "nopool", &lab("swap_manager_and_state"), &mut pair, |p| snap_ig::<C>(p.0), |p| {
                     if p.0.can_swap_managers(p.1).is_ok() {
                         p.0.swap_manager_and_state(p.1);
                     }
@@ -1167,7 +1410,7 @@ fn tempering_scenarios(out: &mut Out, gen: &mut SplitMix64, thorough: bool) {
 
 /// Public-API view of "no stale data": borrow every pooled bond container of a clone of the
 /// manager through `Factory`; each must be blank (no keys, total weight exactly 0, no address).
-fn probe_pooled_containers(m: &FastOps) -> Option<String> {
+fn probe_pooled_containers<C: Cfg>(m: &Mgr<C>) -> Option<String> {
     let mut m = m.clone();
     let mut bad = None;
     let a: BondContainer<usize> = m.get_instance();
@@ -1194,9 +1437,10 @@ fn probe_pooled_containers(m: &FastOps) -> Option<String> {
 // ---------------------------------------------------------------------------------------------
 // soak: long runs, aggregated log
 // ---------------------------------------------------------------------------------------------
-fn soak(out: &mut Out, gen: &mut SplitMix64, thorough: bool) {
+fn soak<C: Cfg>(out: &mut Out, gen: &mut SplitMix64, thorough: bool, share: (usize, usize)) {
     let lats = lattices(thorough);
     let (n_dyadic, n_nd, steps) = if thorough { (48, 48, 20000) } else { (10, 14, 2500) };
+    let (n_dyadic, n_nd) = (n_dyadic * share.0 / share.1, n_nd * share.0 / share.1);
     let frustrated = ["hex6_chords", "tri_ladder6", "k4", "ring3", "ring5", "torus3x3", "star5"];
     for r in 0..(n_dyadic + n_nd) {
         // the second block of runs uses NON-dyadic couplings on frustrated graphs with RVB on
@@ -1222,10 +1466,10 @@ fn soak(out: &mut Out, gen: &mut SplitMix64, thorough: bool) {
             .collect();
         let seed = gen.next();
         out.count(if nd { "soak_runs_nondyadic" } else { "soak_runs_dyadic" });
-        let tag = format!("soak:{}{}:G{}:h{}:b{}:hb{}:rvb{}:steps{}:s{}", lat.name, if nd { ":Jnondyadic" } else { "" }, show_f(gamma), show_f(h), show_f(beta), hb as u8, rvb as u8, steps, seed);
-        let mut g = build_ising(&lat, &js, gamma, h, lat.nvars, seed, hb, rvb);
+        let tag = format!("{}soak:{}{}:G{}:h{}:b{}:hb{}:rvb{}:steps{}:s{}", C::NAME, lat.name, if nd { ":Jnondyadic" } else { "" }, show_f(gamma), show_f(h), show_f(beta), hb as u8, rvb as u8, steps, seed);
+        let mut g = build_ising::<C>(&lat, &js, gamma, h, lat.nvars, seed, hb, rvb);
         let _ = verif_log::take();
-        let before = snap_ig(&g);
+        let before = snap_ig::<C>(&g);
         let mut bal = [0i64; 9];
         let mut low: Vec<i64> = before.iter().map(|x| *x as i64).collect();
         let mut problems: Vec<String> = vec![];
@@ -1265,7 +1509,7 @@ fn soak(out: &mut Out, gen: &mut SplitMix64, thorough: bool) {
                     }
                 }
                 if s % 64 == 63 || s + 1 == steps {
-                    if let Some(p) = probe_pooled_containers(g.get_manager_ref()) {
+                    if let Some(p) = probe_pooled_containers::<C>(g.get_manager_ref()) {
                         if problems.len() < 4 {
                             problems.push(format!("step {}: {}", s, p));
                         }
@@ -1277,7 +1521,7 @@ fn soak(out: &mut Out, gen: &mut SplitMix64, thorough: bool) {
         out.add("soak_steps", steps as u64);
         match res {
             Ok(()) => {
-                let after = snap_ig(&g);
+                let after = snap_ig::<C>(&g);
                 if after != before {
                     problems.push(format!("occupancy {} -> {}", list(&before), list(&after)));
                 }
@@ -1308,17 +1552,18 @@ fn soak(out: &mut Out, gen: &mut SplitMix64, thorough: bool) {
     // generic sampler soak
     let models = generic_models(thorough);
     let (n_runs, steps) = if thorough { (24, 20000) } else { (6, 2500) };
+    let n_runs = n_runs * share.0 / share.1;
     for r in 0..n_runs {
         let gm = models[(r * 3 + 1) % models.len()].clone();
         let seed = gen.next();
         let beta = *gen.pick(&[1.0, 4.0]);
-        let tag = format!("soak:generic:{}:b{}:steps{}:s{}", gm.name, show_f(beta), steps, seed);
-        let mut q = match build_generic(&gm, seed, true, r % 2 == 1) {
+        let tag = format!("{}soak:generic:{}:b{}:steps{}:s{}", C::NAME, gm.name, show_f(beta), steps, seed);
+        let mut q = match build_generic::<C>(&gm, seed, true, r % 2 == 1) {
             Some(q) => q,
             None => continue,
         };
         let _ = verif_log::take();
-        let before = snap_gq(&q);
+        let before = snap_gq::<C>(&q);
         let mut problems: Vec<String> = vec![];
         let res = catch(|| {
             for s in 0..steps {
@@ -1343,7 +1588,7 @@ fn soak(out: &mut Out, gen: &mut SplitMix64, thorough: bool) {
         out.add("soak_steps", steps as u64);
         match res {
             Ok(()) => {
-                let after = snap_gq(&q);
+                let after = snap_gq::<C>(&q);
                 if after != before {
                     problems.push(format!("occupancy {} -> {}", list(&before), list(&after)));
                 }
@@ -1538,12 +1783,24 @@ fn main() {
             let v = serde_json::to_value(qmc::sse::fast_op_alloc::DefaultFastOpAllocator::default()).unwrap();
             let direct: Vec<u64> = FIELDS.iter().map(|f| v[*f]["instances"].as_u64().unwrap_or(u64::MAX)).collect();
             emit(false, "caps", &list(&direct), Some(Ok(())));
-            ising_scenarios(&mut out, &mut gen, a.thorough);
-            generic_scenarios(&mut out, &mut gen, a.thorough);
-            tempering_scenarios(&mut out, &mut gen, a.thorough);
+            ising_scenarios::<CfgDefault>(&mut out, &mut gen, a.thorough, (1, 1));
+            generic_scenarios::<CfgDefault>(&mut out, &mut gen, a.thorough, (1, 1));
+            tempering_scenarios::<CfgDefault>(&mut out, &mut gen, a.thorough, (1, 1));
             large_scenarios(&mut out, &mut gen, a.thorough);
+            // the public wrapper allocator in front of a bounded pool: same oracles, same grammars
+            ising_scenarios::<CfgSwitchPool>(&mut out, &mut gen, a.thorough, (1, 3));
+            generic_scenarios::<CfgSwitchPool>(&mut out, &mut gen, a.thorough, (1, 3));
+            tempering_scenarios::<CfgSwitchPool>(&mut out, &mut gen, a.thorough, (1, 3));
+            // the wrapper without a pool: nothing to exhaust or leak; run for panics, hook must stay silent
+            ising_scenarios::<CfgSwitchNone>(&mut out, &mut gen, a.thorough, (1, 10));
+            generic_scenarios::<CfgSwitchNone>(&mut out, &mut gen, a.thorough, (1, 10));
+            tempering_scenarios::<CfgSwitchNone>(&mut out, &mut gen, a.thorough, (1, 8));
         }
-        "soak" => soak(&mut out, &mut gen, a.thorough),
+        "soak" => {
+            soak::<CfgDefault>(&mut out, &mut gen, a.thorough, (1, 1));
+            soak::<CfgSwitchPool>(&mut out, &mut gen, a.thorough, (1, 4));
+            soak::<CfgSwitchNone>(&mut out, &mut gen, a.thorough, (1, 8));
+        }
         "bc" => {
             bc_mode(&mut out, &mut gen, a.thorough);
             bc_float_mode(&mut out, &mut gen, a.thorough);
